@@ -316,6 +316,8 @@ def processCm (cfg : Cfg) (s : St) (now : Nat) (mid : MessageId) (dest : Nat) (d
   if data.length < 12 then { st := s }
   else
     let src := mid.source_address
+    -- the global address is no valid source (repair of D29)
+    if src == Const.Addr.GLOBAL then { st := s } else
     let control := Tp22.cm_control data
     let session := Tp22.cm_session data
     let size := Tp22.cm_size data
